@@ -9,9 +9,15 @@ CFG = {
             "and every way a string ends; all 256 bytes after each prefix; text with every split into reads; grammar-generated long "
             "streams and raw fuzz (incl. invalid UTF-8) with random splits; non-trivial = the model delivers something besides EOF, "
             "distinct by (bytes, reads)",
-    "trusted_base": [],
-    "assumptions": [],
-    "level_text": "",
-    "level_note": "",
+    "trusted_base": ["Spec/VT500.lean: transcription of the Williams VT500 table and the seven documented extensions (reviewed by hand)",
+                     "action bodies (csiDispatch loop, hook, exit functions), the utf8/bufio/print look-ahead model: validated by correspondence only",
+                     "uniseg is a parameter (clusterAt), computed by the harness with the real library; its prefix hypothesis is checked per case"],
+    "assumptions": ["parameter values < 2^63 in the round-trip theorems and in the oracle (Go int wrap-around is modelled but not judged)"],
+    "level_text": "Proved for all states/runes/streams: regenerated transition table = Williams VT500 table + extensions (all 16 state functions x every rune and eof); "
+                  "hand model = regenerated table; CSI/ESC/SS3/OSC/DCS/APC round trips from any state with exactly-once delivery; parameter codec inverse for all "
+                  "parameter lists with sub-parameters; invariant (exit function matches state, ST flag only in strings/escape), no panic, malformed sequences deliver "
+                  "nothing; rune-level text order. Byte level (UTF-8 fallback, grapheme look-ahead, read boundaries): correspondence + Spec oracle.",
+    "level_note": "Proved: see notes/C02.md table. Validated by correspondence only: action bodies, reading side (ParserIO). False with witness (recorded findings): "
+                  "F102 ST of an empty string delivered, F102c C0 inside ST, F102d invalid byte after a Prepend character -> U+FFFD. Fixed in /repo: F05, F07, F102b.",
     "timeout": 1800,
 }
